@@ -17,7 +17,8 @@ import re
 from lib import vlib
 from lib.vlib import cq_bytes, cq_list, cq_bool, cq_N, cq_Z
 
-SETUP_BUILDS = [{"name": "c19"}]
+CHAT_BUILD = {"name": "c19chat", "test_pkg": "./server", "overlays": ["server/c19_test.go"]}
+SETUP_BUILDS = [{"name": "c19"}, CHAT_BUILD]
 COQ_TARGETS = ["Prompt/Properties_C19.v", "Prompt/Corr.v"]
 HEADER = ("From Coq Require Import List NArith ZArith Bool.\nFrom V Require Import Common.Bytes Prompt.Model Prompt.Corr.\n"
           "Import ListNotations.\nOpen Scope N_scope.\n")
@@ -432,6 +433,18 @@ def corpus_convs():
     return out
 
 
+def corpus_cases():
+    """corpus/C19/*.json: complete minimal cases (template, conversation, context length) that once failed"""
+    out = []
+    d = os.path.join(vlib.VERIF, "corpus", "C19")
+    for fn in sorted(os.listdir(d)) if os.path.isdir(d) else []:
+        if fn.endswith(".json"):
+            c = json.load(open(os.path.join(d, fn)))
+            c["klass"] = "corpus"
+            out.append(c)
+    return out
+
+
 def thresholds(rng, c0, o0, how_many):
     """context lengths around the boundaries of the conversation (so that the scan stops at every position)"""
     L = ctxlens(c0, o0)
@@ -465,7 +478,7 @@ def gen_convs(ctx):
                 st = (fixed + [rnd_style(rng)])[k % (len(fixed) + 1)]
                 k += 1
                 convs.append((st, msgs, rng.choice([0, 1, 4]), False, 0, "exhaustive-roles"))
-    n = 120 if ctx.quick() else 2500
+    n = 300 if ctx.quick() else 4000
     for _ in range(n):
         st = rng.choice(fixed) if rng.random() < 0.25 else rnd_style(rng)
         msgs = rnd_conv(rng, 7 if ctx.quick() else 10)
@@ -574,15 +587,34 @@ def check_cases(ctx, binp, cases, obs, cand_done):
             cand_done.add(key)
             items.append(render_cand(c, o))
             owners.append((c, o, "chk_cand"))
-    bad, log = ctx.coq_eval(HEADER, items, per_file=60)
+    bad, log = ctx.coq_eval(HEADER, items, per_file=max(40, min(250, len(items) // 16 + 1)))
     if bad is None:
         ctx.obligation("correspondence: model evaluated on all cases", False, log)
         ctx.proof_failures.append({"obligation": "correspondence evaluation failed in coqc", "detail": log})
         return
     ctx.disagreements_checked += len(items)
     ctx.obligation("correspondence: model = implementation on %d comparisons" % len(items), not bad)
+    explored = 0
     for i in bad[:20]:
         c, o, what = owners[i]
+        if explored < 5 and not ctx.violations and c["msgs"] and "cand" in o:
+            # look around the disagreeing case for an input on which the property itself fails
+            explored += 1
+            var = []
+            for t in sorted(set(x + d for x in ctxlens(c, o) for d in (-1, 0, 1))):
+                for ml, pj in ((c["mllama"], c["proj"]), (False, 0), (False, 1)):
+                    var.append(dict(c, num_ctx=t, mllama=ml, proj=pj, png=False if not ml else c.get("png", False)))
+            for k in range(1, len(c["msgs"])):
+                var.append(dict(c, msgs=c["msgs"][k:]))
+            vobs, _ = ctx.run_jsonl(binp, [wire(v) for v in var])
+            for v, vo in zip(var, vobs or []):
+                if "outcome" not in vo:
+                    continue
+                decode_images(v, vo)
+                j = judge(v, vo)
+                if j is not None:
+                    ctx.violation(j[0], j[1] + " -- " + json.dumps(describe(v, vo))[:1500], {"case": v, "wire": wire(v), "impl": vo, "readable": describe(v, vo), "found_near_disagreement": describe(c, o)})
+                    break
         ctx.mismatch("Prompt/Corr.%s" % what, {"readable": describe(c, o), "case": c, "wire": wire(c)}, o,
                      ctx.coq_print(HEADER, model_term(c)) if len(ctx.mismatches) < 3 else None)
 
@@ -596,6 +628,7 @@ def run(ctx):
                 "one message; distinct = canonical JSON of template+conversation+parameters" % (3 if ctx.quick() else 4))
     ctx.trusted = ["Coq 8.16.1 kernel + vm_compute", "hand-written model coq/Prompt/Model.v tied to server/prompt.go and template/template.go by this differential run only",
                    "Go harness harness/cmd/c19 (its two tokenizers are the harness's own) and overlay export VerifChatPrompt (add-only, build tag verif)",
+                   "in-package test harness harness/overlay/server/c19_test.go for POST /api/chat (scheduler and runner are the mocks of server/routes_generate_test.go)",
                    "Go text/template for templates outside the four modelled families", "python generator and monitor (props/c19.py)"]
     ctx.assumptions = ["'fits' is what chatPrompt measures: tokens of the template's rendering of [system messages before k] + msgs[k:] (+ image tokens) <= num_ctx",
                        "image clause: contents free of the literal '[img-' (as in DESIGN section 5)",
@@ -621,20 +654,134 @@ def run(ctx):
             per = 4
         for t in thresholds(ctx.rng, c0, o0, per):
             cases.append(dict(c0, num_ctx=t))
+    cases = corpus_cases() + cases
     obs = run_cases(ctx, binp, cases)
     if obs is None:
         return
     check_cases(ctx, binp, cases, obs, set())
+    handler_check(ctx)
+    if not ctx.quick():
+        ctx.coqchk(["V.Prompt.Properties_C19", "V.Prompt.Corr"])
+
+
+# ------------------------------------------------------------------ end to end: POST /api/chat
+
+def chat_conv(c):
+    """the conversation of a chat request as the user sees it: the model's messages, the request's messages, and the
+    model's system prompt in front unless the request brings its own leading system message"""
+    conv = [dict(m, role=m["role"].lower()) for m in list(c["model_msgs"]) + list(c["msgs"])]   # the API lower-cases roles
+    if c["msgs"] and conv[len(c["model_msgs"])]["role"] != "system" and c["system"] is not None:
+        conv = [c["system"]] + conv
+    return conv
+
+
+def wire_chat(c):
+    w = lambda ms: [{"role": m["role"].encode().hex(), "content": content_of(m).encode().hex(), "images": [img_bytes(i).hex() for i in m["images"]]} for m in ms]
+    return {"tmpl": style_text(c["style"]).encode().hex(), "system": (content_of(c["system"]) if c["system"] else "").encode().hex(),
+            "model_msgs": w(c["model_msgs"]), "msgs": w(c["msgs"]), "num_ctx": c["num_ctx"]}
+
+
+def as_prompt_case(c):
+    return {"style": c["style"], "msgs": chat_conv(c), "tok": 0, "mllama": False, "proj": 0, "num_ctx": c["num_ctx"], "klass": "handler", "png": False}
+
+
+def render_handler(c, o):
+    oc = o.get("outcome")
+    imgs = cq_list(["(%s, %s)" % (cq_N(e["id"]), cq_N(e["_img"] if e.get("_img") is not None else 999999)) for e in o.get("images") or []], "(N * N)")
+    return "chk_handler %s %s %s %s %s %s %s %s" % (
+        style_term(c["style"]), cq_Z(c["num_ctx"]), cq_bytes((content_of(c["system"]) if c["system"] else "").encode()),
+        cq_list([msg_term(dict(m, role=m["role"].lower())) for m in c["model_msgs"]], "msg"), cq_list([msg_term(dict(m, role=m["role"].lower())) for m in c["msgs"]], "msg"),
+        cq_N(oc if oc in (0, 1, 2) else 3), cq_bytes(bytes.fromhex(o.get("prompt", ""))), imgs)
+
+
+def run_chat(ctx, binp, cases):
+    env = dict(vlib.goenv(), VERIF_C19_CHAT="1")
+    obs, err = ctx.run_jsonl(binp, [wire_chat(c) for c in cases], args=["-test.run", "TestVerifC19Chat$"], env=env)
+    if obs is None or len(obs) != len(cases) or any("harness_error" in o for o in obs):
+        ctx.obligation("harness c19chat answered every case", False, str(err)[-1500:] + json.dumps([o for o in obs or [] if "harness_error" in o][:2]))
+        ctx.proof_failures.append({"obligation": "correspondence: harness c19chat (POST /api/chat) did not answer every case", "detail": str(err)[-1500:]})
+        return None
+    for c, o in zip(cases, obs):
+        decode_images(as_prompt_case(c), o)
+    return obs
+
+
+def handler_check(ctx):
+    """POST /api/chat through the real ChatHandler: what reaches the runner is the prompt of the whole conversation"""
+    binp = ctx.go_build(**CHAT_BUILD)
+    if not binp:
+        return
+    rng = ctx.rng
+    base = []
+    for i in range(50 if ctx.quick() else 500):
+        st = rng.choice(fixed_styles()) if rng.random() < 0.3 else rnd_style(rng)
+        msgs = rnd_conv(rng, 6)
+        j = rng.randrange(len(msgs))            # msgs[:j] are the model's own messages, msgs[j:] the request
+        model_msgs = [dict(m, images=[], body=m["body"].replace("[img]", "")) for m in msgs[:j]]
+        system = None if rng.random() < 0.35 else {"id": 900, "role": "system", "body": rnd_body(rng, long=rng.random() < 0.3), "images": []}
+        base.append({"style": st, "system": system, "model_msgs": model_msgs, "msgs": msgs[j:], "num_ctx": 1})
+    obs0 = run_chat(ctx, binp, base)
+    if obs0 is None:
+        return
+    cases = []
+    for c0, o0 in zip(base, obs0):
+        pc = as_prompt_case(c0)
+        for t in thresholds(rng, pc, o0, 2):
+            cases.append(dict(c0, num_ctx=max(1, t)))
+    obs = run_chat(ctx, binp, cases)
+    if obs is None:
+        return
+    items = []
+    for c, o in zip(cases, obs):
+        pc = as_prompt_case(c)
+        ctx.note_case({"handler": wire_chat(c)}, True, "handler:" + classify(pc, o), sample=describe(pc, o))
+        want_conv = [{"role": m["role"].encode().hex(), "content": content_of(m).encode().hex(), "images": [img_bytes(i).hex() for i in m["images"]]} for m in pc["msgs"]]
+        if o.get("conv") != want_conv or (o.get("outcome") == 0 and o.get("num_ctx_used") != c["num_ctx"]):
+            ctx.obligation("harness c19chat ran the conversation it was given", False, json.dumps({"want": want_conv, "got": o.get("conv"), "num_ctx_used": o.get("num_ctx_used")})[:1500])
+            ctx.proof_failures.append({"obligation": "correspondence: harness c19chat", "detail": "conversation / num_ctx differ from the case"})
+            return
+        j = judge(pc, o)
+        if j is not None:
+            ctx.violation(dict(j[0], via="POST /api/chat"), "POST /api/chat: " + j[1] + " -- " + json.dumps(describe(pc, o))[:1500],
+                          {"case": pc, "handler_case": c, "wire": wire_chat(c), "impl": o, "readable": describe(pc, o)})
+        items.append(render_handler(c, o))
+    bad, log = ctx.coq_eval(HEADER, items, per_file=max(20, len(items) // 8 + 1), name="handler")
+    if bad is None:
+        ctx.obligation("correspondence: handler model evaluated on all cases", False, log)
+        ctx.proof_failures.append({"obligation": "correspondence evaluation failed in coqc (handler)", "detail": log})
+        return
+    ctx.disagreements_checked += len(items)
+    ctx.obligation("correspondence: model = POST /api/chat on %d requests" % len(items), not bad)
+    for i in bad[:10]:
+        pc = as_prompt_case(cases[i])
+        ctx.mismatch("Prompt/Corr.chk_handler", {"readable": describe(pc, obs[i]), "handler_case": cases[i], "wire": wire_chat(cases[i])}, obs[i],
+                     ctx.coq_print(HEADER, model_term(pc)) if len(ctx.mismatches) < 3 else None)
 
 
 def replay(ctx, path):
     r = json.load(open(path))
     ctx.log("replaying", path)
     rp = r.get("replay") or (r.get("disagreements") or [{}])[0].get("case") or {}
-    c = rp.get("case")
-    if not c:
+    c, hc = rp.get("case"), rp.get("handler_case")
+    if not c and not hc:
         return run(ctx)
     ctx.proof_stage(["Prompt"], "Prompt/Properties_C19.v", extra_targets=["Prompt/Corr.v"])
+    if hc:       # a POST /api/chat case
+        binp = ctx.go_build(**CHAT_BUILD)
+        obs = run_chat(ctx, binp, [hc]) if binp else None
+        if obs is None:
+            return
+        pc = as_prompt_case(hc)
+        print(json.dumps(describe(pc, obs[0]), indent=1))
+        ctx.note_case({"handler": wire_chat(hc)}, True, "handler:" + classify(pc, obs[0]))
+        j = judge(pc, obs[0])
+        if j is not None:
+            ctx.violation(dict(j[0], via="POST /api/chat"), "POST /api/chat: " + j[1], {"case": pc, "handler_case": hc, "impl": obs[0], "readable": describe(pc, obs[0])})
+        bad, log = ctx.coq_eval(HEADER, [render_handler(hc, obs[0])], name="handler")
+        ctx.obligation("correspondence: model = POST /api/chat on the replayed request", bad == [], log)
+        if bad:
+            ctx.mismatch("Prompt/Corr.chk_handler", {"readable": describe(pc, obs[0]), "handler_case": hc}, obs[0], ctx.coq_print(HEADER, model_term(pc)))
+        return
     binp = ctx.go_build("c19")
     if not binp:
         return
